@@ -9,8 +9,11 @@ ORACLE B (stochastic Lanczos quadrature: the node exists).  Reading functions/_i
     started from z_i with the closure P^{-1} produces the Jacobi matrix T_i of Lanczos on M = P^{-1/2} A P^{-1/2} started
     from u_i = P^{-1/2} z_i / |P^{-1/2} z_i| (the normalisation of z_i cancels, so `probe_vector_norms` is not needed);
     StochasticLQ returns (n/m) sum_i e_1^T log(T_i) e_1 and inv_quad_logdet adds log|P|.  Once T_i has the Krylov
-    dimension of (M, u_i) -- guaranteed by max_lanczos_quadrature_iterations >= n and max_cg_iterations >= n + 1 -- Gauss
-    quadrature is exact:   logdet == log|P| + (n/m) sum_i u_i^T log(M) u_i.
+    dimension of (M, u_i) -- guaranteed by max_lanczos_quadrature_iterations >= n and max_cg_iterations >= n (>= n + 1 before
+    the linear_cg fix 435e1ec, see F-C05-cg-budget-equals-n) -- Gauss quadrature is exact:
+        logdet == log|P| + (n/m) sum_i u_i^T log(M) u_i.
+    Early breakdown (Krylov dimension < n) keeps the identity (Gauss quadrature is exact at the Krylov dimension); what
+    linear_cg does at and after a breakdown (frozen columns, tridiagonalisation cut at 1e-6) enters the tolerance only.
     P is the operator returned by `op._preconditioner()` (identity when it returns None), densified in float64.
 """
 import math
@@ -36,8 +39,8 @@ RULE = (
     "logdet flag x entry point {op.logdet, torch.logdet, op.inv_quad, op.inv_quad_logdet, linear_operator.inv_quad, "
     "linear_operator.inv_quad_logdet} x settings cell {max_cholesky_size 0/default, fast log_prob, num_trace_samples 1/4/10, "
     "max_lanczos_quadrature_iterations n/n+2, skip_logdet_forward, min_preconditioning_size / max_preconditioner_size, "
-    "cg_tolerance, max_cg_iterations >= n+1, deterministic_probes}. Non-trivial: stochastic path taken (autograd node found), "
-    "or closed-form override head with non-empty batch or reduce=False. Distinct by (class path, entry, path, rhs kind, flags, "
+    "cg_tolerance, max_cg_iterations >= n, deterministic_probes}. Non-trivial: stochastic path taken (autograd node found), "
+    "or closed-form override head with non-empty batch or reduce=False (value comparison not vacuous). Distinct by (class path, entry, path, rhs kind, flags, "
     "settings cell, batch shape, values)."
 )
 BUDGET = {"quick": 2500, "thorough": 4000}
@@ -57,7 +60,6 @@ ASSUMPTIONS = [
     "then drawn through a Lanczos root decomposition of the preconditioner, which is C09's subject)",
 ]
 
-ENTRIES = ["logdet", "torch.logdet", "inv_quad", "inv_quad_logdet", "inv_quad_logdet", "inv_quad_logdet", "fn.inv_quad", "fn.inv_quad_logdet"]
 OVERRIDE_HEADS = ["Chol", "Diag", "ConstantDiag", "Identity", "KroneckerDiag", "Kronecker", "KroneckerAddedDiag", "SumKronecker",
                   "LowRankRootAddedDiag", "BlockDiag", "BlockInterleaved", "BatchRepeat", "Cat", "Tri"]
 GENERIC_HEADS = ["Dense", "Minimal", "Toeplitz", "Root", "Sum", "PsdSum", "Mul", "ConstantMul", "SumBatch", "Masked", "AddedDiag"]
@@ -948,6 +950,19 @@ TRIGGERS = {
     "triangular_batched_logdet": _t_tri_batched,
     "kpad_kronecker_constant_diag_above_cholesky_size": _t_kpad_above,
 }
+
+
+def coverage_extra():
+    return {
+        "tolerances": {
+            "logdet_direct": "C_LOGDET u n (n kappa_s + sum|log lambda|), C_LOGDET=%g; kappa_s = structural condition number (kappa(A); ||A||/min(D) for Woodbury / Kronecker+diag identities; kappa(A) kappa(B2) for SumKronecker)" % C_LOGDET,
+            "inv_quad_direct": "C_SOLVE n u kappa_s |r_j||x_j| per column, C_SOLVE=%g" % C_SOLVE,
+            "inv_quad_cg": "C_CG n u max(kappa_s, kappa(P), kappa(M)) |r_j||x_j| + 4 eps lmax(P) / (lmin(A) min(1, mu_min)) |r_j|^2, C_CG=%g, eps=%g (linear_cg safe-division stall)" % (C_CG, CG_EPS),
+            "slq_identity": "C_SLQ u n kappa(M) sqrt(kappa(P)) (1 + max|log mu|) amp + C_LOGDET u n^2 kappa(P) + 4 n eps lmax(P)/lmin(A) (1 + log(1 + kappa(M))) [+ n max(1e-6, beta)/mu_min when a reference off-diagonal < 1e-5 or the logged Jacobi matrix is smaller than n], C_SLQ=%g; amp = max ||M||/beta_j of a float64 reference Lanczos run on the recovered probes" % C_SLQ,
+            "vacuous_rule": "a value comparison whose bound exceeds 5% of (1 + |reference|) (resp. of |r||x|) is not made and is labelled vacuous:*",
+            "u": {"f64": 2.0**-53, "f32": 2.0**-24},
+        }
+    }
 
 
 def gaps(labels):
